@@ -153,7 +153,8 @@ P = {
          'total order - irreflexive, never Equal and antisymmetric for distinct events (the gap cannot occur), transitive also through '
          'collinear partners and right events (C15_event_order_strict_total_on_valid_input; hypotheses shown satisfiable on the F2 witness); '
          'the segment order is antisymmetric there (C15_segment_order_antisymmetric_on_valid_input); a division changes the answer of no comparison '
-         'between existing events (C15_event_order_stable_under_subdivision). Transitivity of the SEGMENT order '
+         'between existing events (C15_event_order_stable_under_subdivision), nor does the intersection step, the flag computation or the '
+         'whole sweep (C15_step_keeps_event_order, C15_sweep_keeps_event_order). Transitivity of the SEGMENT order '
          'beyond general position and the vertical-order clause for a vertical earlier segment (N4) are NOT proved: they are '
          'checked exhaustively on all lattice segment pairs, on float pairs in both precisions against both bit-exact models (signed '
          'zeros, nearly collinear points with adversarially wrong plain determinants) and on the event sets of generated inputs.', '§7 C15',
